@@ -132,6 +132,8 @@ def check_case(ctx, case):
     x_ft = d_ft * math.cos(look)
     calc = build.calculator(cfg)
     ctx.count("zeroings")
+    if case["shot"].get("slow_downhill_beyond_level_vacuum_range"):
+        ctx.count("slow_downhill_beyond_level_vacuum_range")
     # precondition: a launch along the sight line reaches X within the limits
     along = dict(spec, zero_deg=0.0, rel_deg=0.0)
     try:
@@ -269,6 +271,18 @@ def gen_case(rng):
         s["atmo"] = {"kind": "icao", "alt_ft": 0.0}
         s["mv_fps"] = max(s["mv_fps"], 2000.0)
         d_yd = round(1500.0 / abs(math.sin(math.radians(s["look_deg"]))) / 3.0 * rng.uniform(1.02, 1.3), 1)
+    if rng.random() < 0.06:
+        # a slow projectile, a steep downhill line, an aim point farther down the slope than the level vacuum range v0^2/g - and
+        # still within reach (gravity helps): inside the property's domain, beyond every rule of thumb about 'maximum range'
+        s["mv_fps"] = round(rng.uniform(250, 420), 0)
+        s["bc"] = round(rng.uniform(0.25, 0.7), 3)
+        s["table"] = rng.choice(["G1", "G7"])
+        s["look_deg"] = -round(rng.uniform(25, 45), 1)
+        s["atmo"] = {"kind": "icao", "alt_ft": 9000.0}
+        s["winds"] = []
+        s["zero_deg"] = 0.0
+        d_yd = round(s["mv_fps"] ** 2 / 32.17405 * rng.uniform(1.03, 1.5) / 3.0, 1)
+        s["slow_downhill_beyond_level_vacuum_range"] = True
     if rng.random() < 0.2:
         # temperature-sensitive powder stated at another temperature than the air's: zeroing and firing must launch alike
         s["powder"] = {"temp_c": round(rng.uniform(-25, 45), 1), "modifier": round(rng.choice([-1, 1]) * rng.uniform(0.005, 0.03), 4), "use": True}
